@@ -1,6 +1,7 @@
 package main
 
 import (
+	"path/filepath"
 	"flag"
 	"fmt"
 	"os"
@@ -23,6 +24,8 @@ func main() {
 		cmdCheck(os.Args[2:])
 	case "rac":
 		cmdRAC(os.Args[2:])
+	case "replay":
+		cmdReplay(os.Args[2:])
 	default:
 		fmt.Fprintln(os.Stderr, "unknown command", os.Args[1])
 		os.Exit(3)
@@ -60,6 +63,7 @@ func cmdVC(args []string) {
 	verbose := fs.Bool("v", false, "verbose")
 	safety := fs.Bool("safety", false, "safety obligations only")
 	all := fs.Bool("all", false, "all functions with a contract")
+	sweep := fs.Bool("sweep", false, "all functions of the package (safety sweep)")
 	only := fs.String("only", "", "only obligations whose name contains this substring")
 	sed := fs.String("sed", "", "mutation: file:::old:::new (replace first occurrence in file, in memory)")
 	fs.Parse(args)
@@ -84,6 +88,22 @@ func cmdVC(args []string) {
 	fmt.Fprintf(os.Stderr, "loaded in %.1fs; %d functions, %d contracts, %d spec functions; stale=%v\n",
 		time.Since(t0).Seconds(), len(p.Funcs), len(p.Contracts), len(p.SpecFuncs), p.Stale)
 	keys := fs.Args()
+	if *sweep {
+		for k, f := range p.Funcs {
+			if _, isSpec := p.SpecFuncs[k]; isSpec || f.Blocks == nil || f.Parent() != nil {
+				continue
+			}
+			file := p.Fset.Position(f.Pos()).Filename
+			if strings.HasPrefix(filepath.Base(file), "verif_") || strings.HasSuffix(file, "_test.go") {
+				continue
+			}
+			if c := p.Contracts[k]; c != nil && (c.Trusted || c.Bounded) {
+				continue
+			}
+			keys = append(keys, k)
+		}
+		sort.Strings(keys)
+	}
 	if *all {
 		for k := range p.Contracts {
 			if _, ok := p.Funcs[k]; ok {
